@@ -35,6 +35,7 @@ ATOM_TEXT = {
     "HUGE": "9" * 20, "FRAC": "1.5", "PLUS": "+", "STAR": "*", "LPAR": "(", "EXPEMPTY": "{{#if:||}}",
     "TALK": "Talk:x", "DOTS": "a/b/../../../c", "EPOCH": "@99999999999999999999", "BADDATE": "2020-13-45",
     "LT": "<", "KV": "x=y", "HASH": "#", "UP": "../x", "PCT": "%zz", "E": "e",
+    "SUP": "\u00b2", "ARDIG": "\u0663",
 }
 TITLE_TEXT = {"plain": "Test", "talk": "Talk:x", "nstalk": "Template talk:a/b", "user": "User:foo/bar"}
 UNKNOWN_NAMES = ["#nosuchfunction", "#foo bar"]
